@@ -102,8 +102,10 @@ package router
 //@   ensures [removed] !(sub.id in b.subscriptions)
 //@   ensures [others-kept] forall i wamp.ID :: i != sub.id ==> ((i in b.subscriptions) == old(i in b.subscriptions) && b.subscriptions[i] == old(b.subscriptions[i]))
 
+// A subscription and its subscriber set are built per call: no two
+// subscriptions (of one realm or of different realms) share a subscriber set.
 //@ func newSubscription
-//@   props C01 C04
+//@   props C01 C04 C11
 //@   modifies nothing
 //@   ensures [fresh] result != nil && fresh(result) && result.subscribers != nil && fresh(result.subscribers)
 //@   ensures [fields] result.id == id && result.topic == topic && result.match == match
@@ -1105,11 +1107,10 @@ package router
 //@   ensures [new-realm-object] isnil(result1) ==> fresh(result0)
 
 //@ func newBroker
-//@   partial
+//@   maypanic
 //@   ensures [broker-or-error] isnil(result1) ==> result0 != nil && fresh(result0)
 
 //@ func newDealer
-//@   partial
 //@   requires !isnil(logger)
 //@   ensures [dealer] result != nil && fresh(result)
 
